@@ -1,6 +1,6 @@
 # property table for bin/mkmanifest: claim(id, level text, level note, DESIGN ref) / NA[id] = reason
 UC = "no check registered yet: harnesses for this property are still under construction in this session (see DESIGN.md section 4 for the plan)"
-for p in ["C01","C02","C03","C04","C05","C06","C07","C10","C11","C12","C13","C14","C15","C17","C18","C19","C20"]:
+for p in ["C01","C02","C03","C04","C05","C06","C07","C10","C11","C12","C13","C14","C17","C18","C19","C20"]:
     NA[p] = UC
 NA["C08"] = "needs symbolic execution of parser->translator->binder->planner->operators over a symbolic graph and query; far beyond what CBMC can encode for this code base (DESIGN.md section 5); the technique is not switched"
 NA["C09"] = "soundness of optimizer rewrites is semantic equivalence of two heap-allocated plan trees under execution on all graphs; neither rewrite nor execution is encodable within reach (DESIGN.md section 5)"
@@ -12,3 +12,11 @@ claim("C16",
       "Variants are concrete per query, payloads fully symbolic. String variant, bytes, maps, nesting deeper than a 2-element list, bincode/JSON serialisation and the "
       "index/distinct/sort consumers are outside this check's bound.",
       "DESIGN.md section 4 C16")
+
+claim("C15",
+      "Bounded model checking of the real codecs: zig-zag (both copies, all i64/u64), DeltaEncoding signed (n<=3, all i64) and unsigned (sorted, n<=2, all u64), "
+      "DeltaBitPacked (n<=2), BitPackedInts at concrete widths 1,7,16,21,32,33,63,64 with n around the values-per-word boundary (values symbolic), bits_needed (all u64), "
+      "RunLengthEncoding random access / iteration (n=2), BitVector (n=5+push): decode(encode(x)) == x, random access agrees with full decoding, to_bytes/from_bytes changes nothing.",
+      "Lengths and bit widths are concrete per query, element values fully symbolic. Outside the bound: longer sequences (63/64/65 element boundaries), dictionary encoding, codec selector, "
+      "compressed property columns and adjacency chunks, succinct structures, RunLengthEncoding::decode for n>=2 (solver ran out of memory; optional thorough harnesses), arbitrary-byte decoding.",
+      "DESIGN.md section 4 C15")
